@@ -11,7 +11,7 @@ RULE = ("Hypothesis draws a valid stream (same two sources as C08: SVT encoder, 
         "settings threads in 2..16 x is_16bit_pipeline x a schedule stressor (CPU affinity squeeze to 2-4 cores, at most 4 threads per core via taskset so that 16 decoder threads preempt each other inside their spin-wait regions; "
         "H1 perturbation string for the mutex/semaphore wrappers the decoder does use). Half of the cases run on the ASan build (every packet in an exact-size heap buffer, so any over-read is visible), "
         "LeakSanitizer at exit. Oracle: every multi-threaded run returns exactly the pictures of the 1-thread decode of the same stream (which C08 ties to "
-        "libaom/dav1d; here the libaom decode is also compared), no decoder error, no ASan/LSan report, deinit + deinit_handle return, the process exits; a differing multi-threaded run is repeated 4 times: the same wrong pictures every time = 'deterministic' (not the listed timing race, whose output varies = 'intermittent'); a run exceeding 45 s (normal: 0.1-3 s) is a hang candidate and must "
+        "libaom/dav1d; here the libaom decode is also compared), no decoder error, no ASan/LSan report, deinit + deinit_handle return, the process exits; a differing multi-threaded run is repeated 4 times: the same wrong pictures every time = 'deterministic', otherwise 'intermittent'; the key also carries the thread-count bucket (2-4 / 5+): the listed hand-over race of the pinned tree shows up intermittently, or - with 5+ threads under ASan timing - with one predominant wrong result; a run exceeding 45 s (normal: 0.1-3 s) is a hang candidate and must "
         "reproduce in 2 of 3 replays. non-trivial = threads >= 2 and the stream has >= 2 tiles or >= 4 SB rows, and >= 2 multi-threaded settings completed; distinct = sha256(stream) x settings.")
 ASSUMPTIONS = ["the data-race clause is NOT decided: the decoder synchronises through volatile spin flags that ThreadSanitizer does not model (thousands of reports on the unchanged tree, no signal); "
                "what is decided: equality with the single-thread result under preemption stress, memory safety (ASan), leaks (LSan), termination and teardown",
@@ -166,7 +166,7 @@ def run_case(case, tier):
                             if r2.ok and hashlib.sha256(b"".join(r2.planes)).hexdigest() == dg:
                                 same += 1
                         kind = "deterministic" if same == 4 else "intermittent"
-                        viol.append(dict(key="C09|output-differs|%s|tiles%s" % (kind, "1" if tiles == 1 else "2-4" if tiles <= 4 else "5+"),
+                        viol.append(dict(key="C09|output-differs|%s|tiles%s|th%s" % (kind, "1" if tiles == 1 else "2-4" if tiles <= 4 else "5+", "2-4" if rn["threads"] <= 4 else "5+"),
                                          what="picture %d differs from the 1-thread decode (%s; tiles=%d sbrows=%d; identical wrong output in %d of 4 repeats)" % (k, tag, tiles, sbrows, same)))
                         break
                 else:
